@@ -251,9 +251,22 @@ func (c *c10) runReader(r *core.R, rng *rand.Rand, total, savedMask int, allDama
 	comment := []byte(fmt.Sprintf("comment %d \xff\x00 end", rng.Intn(1000)))
 	version := uint64(0x00010000) | uint64(rng.Intn(3))<<32 | uint64(rng.Intn(2))<<40
 	os.WriteFile(e.idx, par1rw.Build(in, 0, comment, version), 0644)
+	// the client-maintained status bits ("checked successfully" and unknown
+	// ones) need not agree between the index and the parity volumes
+	inVol := append([]par1rw.InFile(nil), in...)
+	switch rng.Intn(3) {
+	case 1:
+		for i := range inVol {
+			inVol[i].ExtraStatus = 0
+		}
+	case 2:
+		for i := range inVol {
+			inVol[i].ExtraStatus ^= 2
+		}
+	}
 	vols := map[int][]byte{}
 	for v := 1; v <= nv; v++ {
-		vols[v] = par1rw.Build(in, v, par1rw.Parity(in, v), version)
+		vols[v] = par1rw.Build(inVol, v, par1rw.Parity(in, v), version)
 	}
 	// non-saved files are sometimes absent or altered on disk, and stay so
 	e.bystander = map[int]string{}
